@@ -1,10 +1,11 @@
 -------------------------------- MODULE MCPd --------------------------------
 (* Prints the PD anchors of PdTable as cases for the harness *)
-EXTENDS PdTable, Sequences, Integers, TLC, Json
+EXTENDS PdTable, Sequences, Integers, TLC, Json, IOUtils
+TT == IF "TIER" \in DOMAIN IOEnv /\ IOEnv.TIER = "thorough" THEN PTabT ELSE PTab
 VARIABLE c
 Init == c = 0
-Next == /\ c < Len(PTab) /\ c' = c + 1
-        /\ PrintT(<<"CASE", ToJson([kernel |-> "pd", id |-> PTab[c'].id, lambda |-> PTab[c'].lambda, ks |-> [j \in 1..Len(PTab[c'].ks) |-> PTab[c'].ks[j].k],
-                                     es |-> [j \in 1..Len(PTab[c'].hs) |-> PTab[c'].hs[j].e]])>>)
+Next == /\ c < Len(TT) /\ c' = c + 1
+        /\ PrintT(<<"CASE", ToJson([kernel |-> "pd", id |-> TT[c'].id, lambda |-> TT[c'].lambda, ks |-> [j \in 1..Len(TT[c'].ks) |-> TT[c'].ks[j].k],
+                                     es |-> [j \in 1..Len(TT[c'].hs) |-> TT[c'].hs[j].e]])>>)
 Spec == Init /\ [][Next]_c
 =============================================================================
